@@ -148,6 +148,13 @@ def hostile(rng, S):
             ('univ-disj', ((q('Universal', x, op('Disjunction', Fx, Gx)),), op('Disjunction', q('Universal', x, Fx), q('Universal', x, Gx)))),
             ('quant-dual', ((neg(q('Universal', x, Fx)),), q('Existential', x, neg(Fx)))),
             ('quant-dual:2', ((neg(q('Existential', x, Fx)),), q('Universal', x, neg(Fx)))),
+            # quantifiers over a negated body: instances must keep (or stack) the negation; un-negating is only exact
+            # where double negation is the identity (not G3, P3)
+            ('quant-negbody:1', ((neg(q('Existential', x, neg(Fx))),), q('Universal', x, Fx))),
+            ('quant-negbody:2', ((op('Disjunction', A, B),), op('Conjunction', op('Disjunction', neg(q('Universal', x, neg(Fx))), neg(Fa)), A))),
+            ('quant-negbody:3', ((neg(q('Universal', x, neg(Fx))),), q('Existential', x, Fx))),
+            ('quant-negbody:4', ((q('Existential', x, Fx),), neg(q('Universal', x, neg(Fx))))),
+            ('quant-negbody:5', ((neg(q('Existential', x, neg(Fx))), Ga), op('Conjunction', Fa, Ga))),
             ('identity:subst', ((syn.papp(syn.IDENTITY, a, b), Fa), Fb)),
             ('identity:sym', ((syn.papp(syn.IDENTITY, a, b),), syn.papp(syn.IDENTITY, b, a))),
             ('identity:trans', ((syn.papp(syn.IDENTITY, a, b), syn.papp(syn.IDENTITY, b, c)), syn.papp(syn.IDENTITY, a, c))),
